@@ -83,10 +83,14 @@ def main():
             # that such a pattern would select hold implementation-file names of their own
             form = "meta"
         clean = rng.random() < 0.6
+        fail = None
+        if j % 8 == 6 and form not in ("missingdir",):
+            # a run that fails half-way: the same rules bound what it may have touched by then
+            fail = rng.choice(["simd", "header-is-directory", "output-is-directory", "truncated-input", "reference-missing", "reference-garbage"])
         if j * 12 < len(nm):
             # every near-miss name is present in at least one run with the clean option
             pre, clean = nm[j * 12:(j + 1) * 12] + pre[-2:], True
-        scen.append({"pre": sorted(set(pre)), "form": form, "nref": nref, "meta": META[(j // 7) % len(META)],
+        scen.append({"pre": sorted(set(pre)), "form": form, "nref": nref, "meta": META[(j // 7) % len(META)], "fail": fail,
                      "o": {"nfuncs": nfuncs, "perfile": perfile, "nstatic": nstatic, "ndynamic": ndyn, "external": external,
                            "clean": clean, "out": out}})
     wd = common.scratch("c20-")
@@ -144,6 +148,26 @@ def main():
                     rm["funcs"][k]["body"] = [["i32.const", b32(5000 + k)], ["end"]]
                 open(ref, "wb").write(wasm_encode.encode(machine.enc_module(rm)))
                 args += ["-r", ref]
+            if s["fail"] == "simd":
+                # one function whose body uses an instruction outside the feature set (v128.const; drop): reading succeeds, writing stops there
+                body = [0x00, 0xFD, 0x0C] + [7] * 16 + [0x1A, 0x0B]
+                raw = [0, 0x61, 0x73, 0x6D, 1, 0, 0, 0, 1, 4, 1, 0x60, 0, 0, 3, 2, 1, 0, 10, len(body) + 2, 1, len(body)] + body
+                open(inp, "wb").write(bytes(raw))
+            elif s["fail"] == "truncated-input":
+                data = open(inp, "rb").read()
+                open(inp, "wb").write(data[:max(9, len(data) - rng.randint(1, 12))])
+            elif s["fail"] == "header-is-directory":
+                hn = o["out"][:o["out"].rindex(".")] + ".h" if "." in o["out"] else o["out"] + ".h"
+                if not os.path.exists(os.path.join(outdir, hn)):
+                    os.makedirs(os.path.join(outdir, hn))
+            elif s["fail"] == "output-is-directory":
+                if not os.path.exists(os.path.join(outdir, o["out"])):
+                    os.makedirs(os.path.join(outdir, o["out"]))
+            elif s["fail"] == "reference-missing":
+                args = [a for a in args if a != "-r" and not a.endswith("ref.wasm")] + ["-r", os.path.join(indir, "no-such-reference.wasm")]
+            elif s["fail"] == "reference-garbage":
+                open(os.path.join(indir, "garbage.wasm"), "wb").write(b"\0asm\1\0\0\0\x01\x7f")
+                args = [a for a in args if a != "-r" and not a.endswith("ref.wasm")] + ["-r", os.path.join(indir, "garbage.wasm")]
             cwd = root
             outarg = {"rel": o["out"], "dotrel": "./sub/" + o["out"], "abs": os.path.join(outdir, o["out"]),
                       "nested": "a/b/" + o["out"], "inputinside": o["out"], "long": LONG + "/" + o["out"],
@@ -162,6 +186,22 @@ def main():
                 if after != before:
                     devs.append(("touched", "files changed although the output directory does not exist: %s" %
                                  sorted(set(after.items()) ^ set(before.items()))[:4]))
+                shutil.rmtree(root, ignore_errors=True)
+                return j, devs, " ".join([os.path.basename(w2c2)] + args[1:] + ["input.wasm", outarg])
+            if s["fail"]:
+                # whatever the status: created or changed files are among the run's own outputs, vanished ones among those -c selects
+                rel = os.path.relpath(outdir, root)
+                pref = "" if rel == "." else rel + "/"
+                own = set(pref + bytes(n).decode() for n in p["written"])
+                mayvanish = set(pref + bytes(n).decode() for n in p["deleted"])
+                for k in set(before) | set(after):
+                    if before.get(k) == after.get(k):
+                        continue
+                    if k not in after:
+                        if k not in mayvanish and k not in own:
+                            devs.append(("failed-run-deleted", "%s (%s)" % (k, s["fail"])))
+                    elif k not in own:
+                        devs.append(("failed-run-touched", "%s (%s)" % (k, s["fail"])))
                 shutil.rmtree(root, ignore_errors=True)
                 return j, devs, " ".join([os.path.basename(w2c2)] + args[1:] + ["input.wasm", outarg])
             if rc != 0:
